@@ -32,11 +32,12 @@ PROPS['C06'] = {
     'kani': [{'package': 'flipdot-core', 'harnesses': [
         H('c06_oob_get_never_returns', kind='never_returns', allowed=['byte_bit_indices']),
         H('c06_oob_set_never_returns', kind='never_returns', allowed=['byte_bit_indices']),
+        H('c06_oob_never_returns_any_dims', kind='never_returns', allowed=['byte_bit_indices']),
         H('c06_inbounds_get_returns', covers=2),
     ]}],
     'functions': PAGE_FNS,
     'assumptions': [A_USIZE, A_COW, A_FILL, A_TOOLS, A_DEBUG,
-                    'out-of-bounds "must panic" is decided by Kani for page images up to 512 bytes (all u32 dimensions whose padded size fits; covers all 11 real sign sizes); the in-bounds behaviour is proved by Verus for all u32 dimensions',
+                    'out-of-bounds "must panic" is decided by Kani for ALL u32 dimensions and coordinates (c06_oob_never_returns_any_dims, on a page value with an empty byte image: the bounds check precedes every access) and additionally on well-formed pages over borrowed buffers up to 512 bytes; the in-bounds behaviour is proved by Verus for all u32 dimensions',
                     'sequences of set/clear/set-all need no exploration: every operation preserves the representation invariant wf() and is characterised on the whole byte view (inductive)'],
     'explanation': 'C06 = whole-view postconditions of set_pixel / set_all_pixels / get_pixel on the real text + lemmas lemma_c06_set_pixel / lemma_c06_set_all deriving the property statement from those postconditions; out-of-bounds panics via Kani never-returns harnesses.',
 }
@@ -338,3 +339,14 @@ PROPS['C08'] = {
                     'configure_if_needed is quantified as the property states: over prior states that are not ready-to-receive or that record the same sign type'],
     'explanation': 'Composition lemma (Kani, spec level, complete over abstract prior states) + bounded native end-to-end exploration of the real controller against the real virtual bus.',
 }
+
+# bounded native runs of the I/O-facing real code (never counted as proved)
+PROPS['C15']['tools'] = [{'kind': 'witness', 'domains': ['stream'], 'bound': '4000 rounds: 1..3 random frames back to back + 0..5 trailing bytes, random fragmentation (1..7 bytes per read), up to 3 Interrupted reads, a hard error at a random call in every third round; writes into a sink accepting 1..9 bytes per call with an Interrupted result and (every fourth round) a hard error'}]
+PROPS['C16']['tools'] = [{'kind': 'witness', 'domains': ['serial'], 'bound': '2 rounds x 14 message kinds x 5 reply frames: bytes written, reply returned, bytes consumed; 6 io::ErrorKinds injected at the write and at the read; 6 undecodable replies; elapsed time >= 30 ms / >= 100 ms on paced exchanges'}]
+PROPS['C18']['tools'] = PROPS['C16']['tools']
+PROPS['C17']['tools'] = [{'kind': 'witness', 'domains': ['bridge', 'serial-path'], 'bound': 'bridge: 40 conversations of 12 protocol messages interleaved with undecodable / unknown lines, bridge vs direct bus after every line; serial path: configure, send_pages, show, load-next, shut-down, reconfigure over controller -> serial bus -> byte stream -> bridge -> virtual bus vs the same operations directly on a virtual bus, 2 sign types x 2 flip styles'}]
+
+PROPS['C19']['verus'] = [{'tmpl': 'sign_type.rs.tmpl', 'obligations': ['SignType::from_bytes']}]
+PROPS['C19']['functions'].append('flipdot_core::sign_type::SignType::from_bytes (Verus, extracted verbatim: every byte string of EVERY length)')
+PROPS['C19']['assumptions'] += [A_USIZE, 'the Vec<u8> stored in UnknownConfig { bytes } is not constrained by the contract (Vec<u8>: From<&[u8]> has no specification); the property does not speak about it']
+PROPS['C19']['explanation'] = 'All 11 variants by Kani (block length 16, round trip, fields agree with dimensions(), (family,id) unique, virtual-sign derivation from any prior dimensions); decoding of byte strings of EVERY length by Verus on the extracted from_bytes (rejects every length other than 16 with the exact counts; accepts exactly the supported (family, id) pairs whatever the other 14 bytes are), cross-checked by Kani for lengths 0..=64.'
